@@ -118,6 +118,9 @@ class KernelHooks(Hooks):
             return it.ptr_add(o, n)
         if name == '__assert_fail':
             raise Thrown(node, 'assertion failure', it.unit)
+        if name == '__builtin_assume_aligned':
+            self.assume_aligned = getattr(self, 'assume_aligned', 0) + 1
+            return it.eval(args[0])
         if name in ('gsl_complex_rect',):
             return gsl_complex(it.to_poly(it.eval(args[0])), it.to_poly(it.eval(args[1])))
         return NotImplemented
